@@ -1140,4 +1140,4 @@ def check(ctx):
     r13_every_module_entered_is_on_the_history(ctx)
 
 
-CLAUSE += '; the panic sites of the dependency-cycle detector are the reviewed ones'
+CLAUSE += ' Also: the panic sites of the dependency-cycle detector are the reviewed ones.'
